@@ -33,7 +33,12 @@ class DDSPathUtils(object):
                     f"Provided path {p} is not absolute. All paths must be absolute",
                     DDSErrorCode.PATH_NOT_ABSOLUTE,
                 )
-            # TODO: more checks
+            if any(seg in (".", "..") for seg in p.split("/")):
+                raise DDSException(
+                    f"Provided path {p} contains '.' or '..' segments. This is not allowed: "
+                    f"such a path cannot be told apart from the path it would resolve to",
+                    DDSErrorCode.PATH_NOT_ABSOLUTE,
+                )
             return DDSPath(p)
         if isinstance(p, pathlib.Path):
             if not p.is_absolute():
@@ -41,7 +46,7 @@ class DDSPathUtils(object):
                     f"Provided path {p} is not absolute. All paths must be absolute",
                     DDSErrorCode.PATH_NOT_ABSOLUTE,
                 )
-            return DDSPath(p.absolute().as_posix())
+            return DDSPathUtils.create(p.absolute().as_posix())
         raise NotImplementedError(f"Cannot make a path from object type {type(p)}: {p}")
 
     @staticmethod
